@@ -50,6 +50,8 @@ def obligations(tier, ctx):
         for be in ("F", "P"):
             obs.append(Ob(name=f"ids_{tag}_near_{be}", params=[("i", "int"), ("swap", "bool")], pre=["0 <= i <= 11"],
                           call=f"H.crosstalk_near({order!r}, {npos}, i, swap)", backend=be, timeout=240, family="no-cross-talk / near-equal id pairs (corpus)"))
+    obs.append(Ob(name="stdio_pending_two_callers", params=[("mode", "int"), ("swap", "bool")], pre=["0 <= mode <= 1"], call="H.pending_two_callers(mode, swap)", backend="P", timeout=120,
+                  family="stdio routing: two outstanding requests with registered per-request streams, one of them abandoned"))
     # the known finding is re-demonstrated on the smallest instance; if the tree is repaired this confirms and no line is printed
     for order, npos in [((1, 0), -1)] + ([((0, 1), 0)] if tier != "quick" else []):
         m = len(order) + (1 if npos >= 0 else 0)
